@@ -260,6 +260,17 @@ def run(ctx):
                     lin = linear(ix.c[1], lambda nm: sd.get(nm))
                     if lin and lin[0] and any(p in cnt for p in lin[0].split("+")):
                         append = True
+                    # index local with several definitions: the one that dominates the store and is the latest before it decides
+                    iv = strip_casts(ix.c[1])
+                    if not append and iv is not None and iv.k == "DeclRefExpr" and iv.name not in sd:
+                        defs = [d for d in f.walk() if d.k == "BinaryOperator" and d.op == "=" and access_path(d.c[0]) == iv.name and f.dominates(d, n)]
+                        if defs:
+                            last = max(defs, key=lambda d: (d.line, d.id))
+                            between = [d for d in f.walk() if d.k == "BinaryOperator" and d.op == "=" and access_path(d.c[0]) == iv.name and d is not last and
+                                       f.dominates(last, d) and f.pos(d) and f.pos(n) and f.pos(n)[0] in f.reachable_blocks(f.pos(d)[0])]
+                            lin2 = linear(last.c[1], lambda nm: sd.get(nm))
+                            if not between and lin2 and lin2[0] and any(p in cnt for p in lin2[0].split("+")):
+                                append = True
                 if fresh_obj or append or f.name in ("orc_bytecode_parse_function",) and False:
                     continue
                 n4 += 1
